@@ -289,7 +289,11 @@ func TestC16(t *testing.T) { core.Run(t, "C16", "C16", propC16) }
 // propC16Giant exercises values at the 512 MiB limit (few cases, on a real directory).
 func propC16Giant(ch core.Chooser, st *core.Stats) error {
 	pinSeed(uint32(ch.Int("hashseed", 0, 1<<30)))
-	env := NewEnv(drawEnvKind(ch, []string{"os", "mmap"}))
+	kind := drawEnvKind(ch, []string{"os", "mmap"})
+	if !core.Thorough() {
+		kind = "mmap" // the single quick case uses the default file system
+	}
+	env := NewEnv(kind)
 	defer env.Cleanup()
 	cfg := dbx.Config{SegSize: 0, MinSeg: 0, Frag: 0}
 	db, err := dbx.Open(env.Dir, cfg, env.FS)
